@@ -37,7 +37,11 @@ RULE = ("random compounds with 0..12 labile hydrogens written H[1] (20% none), n
         "to 0..8 H[1], judged against D2O_match / D2O_sld / neutron_sld at that natural density; 13 fixed + 12 (quick) "
         "random user-built Molecule(formula carrying its own density, cell_volume=V) judged against the same functions at "
         "density mass/(N_A V); the module's D2Omatch(sld, Dsld) of every molecule; the substituted compound also built "
-        "with fasta.isotope_substitution(portion=d); non-trivial when the "
+        "with fasta.isotope_substitution(portion=d); 40 (quick) contrast series with the D2O / volume fractions given as "
+        "float64 arrays and 0-d arrays that are reused from call to call (every entry vs the call with plain floats, "
+        "the arrays unchanged afterwards); 64 (quick) solutes exchanging almost like the solvent (labile water and "
+        "X.H[1]2O cells within 1e-7 .. 1e-4 relative of the solvent's) judged by the match-point self-consistency; "
+        "non-trivial when the "
         "compound has a labile hydrogen and another atom; distinct by canonical input")
 
 H1, HN, DD = (1, 1, 0), (1, 0, 0), (1, 2, 0)
@@ -650,6 +654,168 @@ def stage_fasta(run, pt, tl, quick):
             run.violation("fasta.%s_SLD is not neutron_sld(%r)[0]" % (s[:3], s), dict(molecule=s), site="fasta-water")
 
 
+# --------------------------------------------------------------------------- contrast series given as arrays
+
+SERIES_COMPOUNDS = [("C3H4H[1]NO", 1.29), ("C27H45H[1]O", 1.05), ("SiO2", 2.2), ("C6H5H[1]7O6", 1.54), ("H[1]2O", 1.0),
+                    ("C2D3H[1]2N", 0.9), ("GdH[1]3O3", 4.0)]
+
+
+def series_failures(text, rho, ds, vfs, kw):
+    """a contrast series: D2O fractions / volume fractions given as float64 arrays (and 0-d arrays) that the caller
+    keeps and uses again for the next sample -> failures: an entry differs from the call with that entry as a plain
+    float, or the caller's array holds other fractions afterwards"""
+    import numpy as np
+    from periodictable import nsf
+    bad = []
+
+    def scalar(vf, d):
+        return [float(x) for x in nsf.D2O_sld(text, volume_fraction=float(vf), D2O_fraction=float(d), density=rho, **kw)[:2]]
+
+    ref = {(vf, d): scalar(vf, d) for vf in vfs for d in ds}
+    scale = max(abs(x) for v in ref.values() for x in v) + 1e-300
+    darr = np.array(ds, dtype=float)
+    varr = np.array(vfs, dtype=float)
+
+    def judge(label, got, want_rows, shape):
+        for j in (0, 1):
+            g = np.asarray(got[j], dtype=float)
+            if g.shape != shape:
+                bad.append("%s: component %d has shape %r, the fractions %r" % (label, j, g.shape, shape))
+                return
+            for a, w in zip(g.ravel(), want_rows):
+                if not tol_close(float(a), w[j], scale):
+                    bad.append("%s: component %d is %r, the call with plain floats gives %r" % (label, j, float(a), w[j]))
+                    return
+
+    # the same array of D2O fractions for every sample concentration
+    for vf in vfs:
+        got = nsf.D2O_sld(text, volume_fraction=vf, D2O_fraction=darr, density=rho, **kw)
+        judge("D2O_fraction=array %r (the same array object for every volume fraction of %r), volume_fraction=%r" % (ds, vfs, vf),
+              got, [ref[(vf, d)] for d in ds], darr.shape)
+        if bad:
+            break
+    if [float(x) for x in darr] != list(ds):
+        bad.append("the caller's D2O_fraction array %r holds %r after the calls" % (ds, [float(x) for x in darr]))
+    if bad:
+        return bad
+    # the same array of volume fractions for every D2O fraction
+    for d in ds:
+        got = nsf.D2O_sld(text, volume_fraction=varr, D2O_fraction=d, density=rho, **kw)
+        judge("volume_fraction=array %r (reused), D2O_fraction=%r" % (vfs, d), got, [ref[(vf, d)] for vf in vfs], varr.shape)
+        if [float(x) for x in varr] != list(vfs):
+            bad.append("the caller's volume_fraction array %r holds %r after the call with D2O_fraction=%r"
+                       % (vfs, [float(x) for x in varr], d))
+            varr[:] = vfs
+        if bad:
+            return bad
+    # both as arrays of one length (sample by sample), twice
+    m = min(len(ds), len(vfs))
+    d2, v2 = np.array(ds[:m], dtype=float), np.array(vfs[:m], dtype=float)
+    for rep in (1, 2):
+        got = nsf.D2O_sld(text, volume_fraction=v2, D2O_fraction=d2, density=rho, **kw)
+        judge("both fractions as arrays, call %d" % rep, got, [ref[(vf, d)] for vf, d in zip(vfs[:m], ds[:m])], d2.shape)
+        if [float(x) for x in d2] != list(ds[:m]) or [float(x) for x in v2] != list(vfs[:m]):
+            bad.append("the caller's fraction arrays hold %r / %r after the call (given %r / %r)"
+                       % ([float(x) for x in d2], [float(x) for x in v2], ds[:m], vfs[:m]))
+        if bad:
+            return bad
+    # 0-d arrays (np.asarray of a float, an element picked with [...]) kept by the caller
+    d0, v0 = np.array(ds[-1], dtype=float), np.array(vfs[0], dtype=float)
+    for vf in vfs:
+        got = nsf.D2O_sld(text, volume_fraction=vf, D2O_fraction=d0, density=rho, **kw)
+        judge("D2O_fraction=0-d array %r (the same object for every volume fraction of %r), volume_fraction=%r" % (ds[-1], vfs, vf),
+              got, [ref[(vf, ds[-1])]], ())
+        if bad:
+            break
+    if float(d0) != ds[-1]:
+        bad.append("the caller's 0-d D2O_fraction array %r holds %r after the calls" % (ds[-1], float(d0)))
+    if bad:
+        return bad
+    for d in ds:
+        got = nsf.D2O_sld(text, volume_fraction=v0, D2O_fraction=d, density=rho, **kw)
+        judge("volume_fraction=0-d array %r (reused), D2O_fraction=%r" % (vfs[0], d), got, [ref[(vfs[0], d)]], ())
+        if float(v0) != vfs[0]:
+            bad.append("the caller's 0-d volume_fraction array %r holds %r after the call" % (vfs[0], float(v0)))
+            v0[...] = vfs[0]
+        if bad:
+            return bad
+    return bad
+
+
+def stage_series(run, pools, n):
+    rng = run.rng
+    from periodictable import nsf
+    for i in range(n):
+        text, rho = SERIES_COMPOUNDS[i % len(SERIES_COMPOUNDS)]
+        if i >= len(SERIES_COMPOUNDS):
+            rho = round(rho * rng.uniform(0.7, 1.4), 3)
+        ds = sorted({round(rng.random(), rng.randint(1, 4)) for _ in range(rng.randint(2, 5))} | ({0.0, 1.0} if rng.random() < 0.4 else set()))
+        vfs = [rng.choice([1.0, 0.3, 0.5, 0.0, 0.25]) if rng.random() < 0.5 else round(rng.random(), 3) for _ in range(rng.randint(2, 4))]
+        vfs = list(dict.fromkeys(vfs))
+        if 1.0 not in vfs and rng.random() < 0.5:
+            vfs.insert(rng.randrange(len(vfs)), 1.0)
+        m = rng.random()
+        kw = {} if m < 0.5 else {"wavelength": nc.gen_wavelength(rng, pools)} if m < 0.8 else \
+            {"energy": float(nsf.neutron_energy(nc.gen_wavelength(rng, pools)))}
+        inp = dict(series=text, density=rho, D2O_fractions=ds, volume_fractions=vfs, beam=kw)
+        run.count(key="series:%s:%r:%r:%r:%r" % (text, rho, ds, vfs, sorted(kw.items())), nontrivial="H[1]" in text,
+                  tag="contrast-series", sample=inp if i < 1 else None)
+        try:
+            bad = series_failures(text, rho, ds, vfs, kw)
+        except Exception as e:  # noqa
+            bad = ["raises %s: %s" % (type(e).__name__, e)]
+        if bad:
+            run.violation("D2O_sld of %s at density %r for a contrast series given as arrays: %s" % (text, rho, "; ".join(bad[:3])),
+                          inp, site="contrast-series")
+
+
+# --------------------------------------------------------------------------- solutes that exchange almost like the solvent
+
+def near_water_cases(rng, n):
+    """(compound text, keywords, description): labile water at a density within 1e-4 .. 1e-7 (relative) of the
+    solvent's 0.9982 (e.g. the six digit 20 C density 0.998207), and hydrated compounds X.(H[1]2O) whose cell volume is
+    within such a distance of the solvent's volume per water molecule: the number density of exchangeable hydrogen is
+    almost - not exactly - the solvent's, the match point is well defined (and may fall far outside [0, 1])"""
+    from periodictable.formulas import formula
+    out = [("H[1]2O@0.998207n", {}, "labile water at 0.998207"), ("H[1]2O@0.99821n", {}, "labile water at 0.99821"),
+           ("H[1]2O@0.99819n", {"wavelength": 4.75}, "labile water at 0.99819"), ("H[1]4O2@0.998203n", {}, "labile water at 0.998203")]
+    w = formula("H2O@0.9982n")
+    for _ in range(n):
+        eps = rng.choice([-1, 1]) * 10.0 ** rng.uniform(-7, -4)
+        kw = {} if rng.random() < 0.6 else {"wavelength": round(rng.uniform(0.5, 12.0), 3)}
+        if rng.random() < 0.6:
+            k = rng.choice([1, 1, 1, 2, 3])
+            text = "H[1]%dO%s@%rn" % (2 * k, "" if k == 1 else str(k), 0.9982 * (1 + eps))
+            out.append((text, kw, "labile water, natural density 0.9982 x (1 %+.3g)" % eps))
+        else:
+            x = rng.choice(["Si", "NaCl", "C2H6O", "CaCl2", "C3H5NO", "D2"])
+            lab = formula("%sH[1]2O" % x)
+            # one water molecule's worth of labile hydrogen per cell of volume V_water x (1 + eps)
+            rho = 0.9982 * lab.mass / w.mass / (1 + eps)
+            out.append(("%sH[1]2O@%r" % (x, rho), kw, "%s.H[1]2O in a cell of the solvent's volume per H2O x (1 %+.3g)" % (x, eps)))
+    return out
+
+
+def stage_near_water(run, n):
+    from periodictable import nsf
+    for text, kw, what in near_water_cases(run.rng, n):
+        inp = dict(near_water=text, beam=kw, what=what)
+        run.count(key="near-water:%s:%r" % (text, sorted(kw.items())), nontrivial=True, tag="near-water")
+        try:
+            fm, msld = [float(v) for v in nsf.D2O_match(text, **kw)]
+            if not math.isfinite(fm) or abs(fm) > 1e9:
+                continue
+            slds = nsf._D2O_slds(text, **kw)
+            at = [float(nsf.D2O_sld(text, volume_fraction=v, D2O_fraction=fm, **kw)[0]) for v in (0.0, 0.25, 0.37, 1.0)]
+        except Exception as e:  # noqa
+            run.violation("D2O_match / D2O_sld of %s (%s) raise %s: %s" % (text, what, type(e).__name__, e), inp, site="near-water")
+            continue
+        scale = (max(abs(float(s[0])) for s in slds) + 1e-300) * (1 + abs(fm))
+        if not all(tol_close(x, msld, scale, rel=1e-8) for x in at):
+            run.violation("%s: at the reported match fraction %r the real SLD depends on the volume fraction: %r at volume "
+                          "fractions 0, 0.25, 0.37, 1 (reported %r)" % (what, fm, at, msld), inp, site="near-water")
+
+
 FIXED = [
     dict(atoms=[[14, 0, 0, 1.0], [8, 0, 0, 2.0]], density=2.2, d=0.3, vf=0.5, beam=["default", 1.798]),          # no labile H
     dict(atoms=[[6, 0, 0, 27.0], [1, 0, 0, 45.0], [1, 1, 0, 1.0], [8, 0, 0, 1.0]], density=1.05, d=0.5, vf=1.0, beam=["default", 1.798]),
@@ -669,6 +835,8 @@ def run(run: Run) -> int:
     pools = nc.Pools(pt.elements)
     stage_fasta(run, pt, tl, quick)
     run_cases(run, pt, orc, tl, FIXED)
+    stage_series(run, pools, 40 if quick else 2000)
+    stage_near_water(run, 60 if quick else 5000)
     n = 1500 if quick else 50000
     cases = [gen_case(run.rng, pools) for _ in range(n)]
     for i in range(0, n, 2500):
@@ -693,6 +861,16 @@ def replay(data) -> int:
             continue
         if "natural_density" in case and "formula" in case:
             print("  failures now:", user_molecule_failures(case["formula"], case["natural_density"]) or "none: the property holds here")
+            continue
+        if "series" in case:
+            print("  failures now:", series_failures(case["series"], case["density"], case["D2O_fractions"], case["volume_fractions"],
+                                                     case["beam"]) or "none: the property holds here")
+            continue
+        if "near_water" in case:
+            from periodictable import nsf
+            fm = float(nsf.D2O_match(case["near_water"], **case["beam"])[0])
+            print("  match fraction", fm, "real SLD at volume fractions 0, 0.25, 0.37, 1:",
+                  [float(nsf.D2O_sld(case["near_water"], volume_fraction=v, D2O_fraction=fm, **case["beam"])[0]) for v in (0.0, 0.25, 0.37, 1.0)])
             continue
         if "atoms" not in case:
             continue
